@@ -15,7 +15,12 @@ RULE = ('as C10\'s sibling C04 (blocks of disable / dispatches / enable over scr
         'real desper.World (self-registration and on_single_dispatch relay in its tables) - a '
         'component slot of that World, dropped by world.remove_component, delete_entity(e, '
         'immediate=True) or delete_entity(e) followed by process(), all issued from top level '
-        'and from inside callbacks; after each drop a weak reference '
+        'and from inside callbacks; in 70 % of the World cases 1-4 Controller-like components '
+        '(their class maps on_add) are created / added while dispatching is disabled, then '
+        'removed, replaced or deleted and dropped before it is re-enabled, so that the '
+        'postponed on_add relay is their only holder until it is delivered; 13 argument '
+        'shapes incl. keyword-only calls (token by keyword) and None/0/\'\'/tuple values; '
+        'after each drop a weak reference '
         'tells whether the object really died; receivers are logged by identity, None as -1; '
         'worker processes run under different PYTHONHASHSEEDs and the set order actually taken '
         'is the order of the ECall entries; non-trivial = a handler freed inside a callback and '
